@@ -1184,10 +1184,30 @@ func (c *Check) fractionValidators(rule string) {
 	}{{"SlashFraction", false}, {"ServiceFeeTax", true}} {
 		g := c.P.FuncNamed(reg[w.fld])
 		if g == nil || g.Body == nil {
-			c.undecided(rule, "validator:"+w.fld, token.NoPos, "the validator registered for "+w.fld+" is not a declared function of the module (a factory-built validator is not decided here)")
+			// a validator built by a factory and kept in a variable: its range is in the factory's arguments; not decided here
+			c.note(fmt.Sprintf("%s: the validator registered for %s is not a declared function (factory-built): its range is not decided", rule, w.fld))
 			continue
 		}
-		sf := c.closeFacts(c.P.SummaryOf(g).SuccessFacts)
+		sf0 := c.closeFacts(c.P.SummaryOf(g).SuccessFacts)
+		// a comparison passed in as a method expression and called through the parameter is that method's call
+		sf := FactSet{}
+		var undyn func(t *Term) *Term
+		undyn = func(t *Term) *Term {
+			if t == nil || t.Op == "" {
+				return t
+			}
+			na := make([]*Term, len(t.A))
+			for i, a := range t.A {
+				na[i] = undyn(a)
+			}
+			if t.Op == "dyn" && len(na) >= 1 && na[0].Is("func") && len(na[0].A) >= 1 && na[0].A[0].Op == "" {
+				return &Term{Op: na[0].A[0].At, A: na[1:], Typ: t.Typ}
+			}
+			return &Term{Op: t.Op, A: na, Typ: t.Typ, At: t.At}
+		}
+		for _, fa := range sf0 {
+			sf.Add(Fact{T: undyn(fa.T), Neg: fa.Neg})
+		}
 		// the validated value: the asserted parameter
 		var v *Term
 		for _, fa := range sf {
